@@ -41,6 +41,28 @@ structure NodeWrite where
   called      : Bool   -- a call `.method(` exists somewhere in the repository
   deriving DecidableEq, Repr
 
+/-- one place where the interpreter enters a process-wide counter of the VM (a call of a method
+of `runtime.VM` that increments a numeric field, e.g. `vm.EnterCall()` → `VM.callDepth`) -/
+structure DepthGuard where
+  fn        : String        -- the Go function executing the frame: "node.ClassMethod.Call"
+  counter   : String        -- the field the entered method increments: "VM.callDepth"
+  limit     : Nat           -- the constant the value returned by the increment is compared with (`> limit`); 0 = none
+  decidesOn : String        -- "own":    every refusal (return) under `shared > limit` is nested in
+                            --           `if own := <goroutine-local frame count>(); own > ownLimit`
+                            -- "shared": a refusal is decided by the process-wide number alone
+                            -- "never":  the counter is entered but nothing is refused here
+  ownLimit  : Nat           -- the constant the goroutine-local count is compared with (0 = none)
+  ownCounts : List String   -- the Go functions whose frames the goroutine-local count counts ("node.ClassMethod.Call")
+  balanced  : Bool          -- the refusal path leaves the counter before returning and a `defer …Leave…()` follows the guard
+  deriving DecidableEq, Repr
+
+/-- a numeric field of `runtime.VM` / `runtime.TempVM` (process-wide: one VM serves all requests) -/
+structure VMCounter where
+  name   : String           -- "VM.callDepth"
+  type   : String           -- "atomic.Int64"
+  atomic : Bool
+  deriving DecidableEq, Repr
+
 structure Facts where
   cells           : List CellFact
   entries         : List EntryFact
@@ -48,6 +70,8 @@ structure Facts where
   routesFinalized : Bool   -- every registration on a Server's mux passes its handler through `finalizeHandler`
   pkgVars         : List PkgVar   -- package-level variables of std/net/http and node/globals_*.go, env_lookup.go
   nodeWrites      : List NodeWrite -- stores of evaluation-time methods of package node into their own receiver
+  depthGuards     : List DepthGuard -- every place that enters a process-wide counter of the VM
+  vmCounters      : List VMCounter  -- numeric fields of the VM types
   shape           : List String   -- places where the source no longer has the shape the translator understands
   deriving Repr
 
@@ -125,6 +149,47 @@ def Facts.violations (f : Facts) : List String :=
       !(f.cells.any (fun c => c.vars.contains v.name)))).map (fun v => "pkgvar:" ++ v.pkg ++ "." ++ v.name)) ++
   f.nodeWriteViolations ++
   f.shape.map (fun s => "shape:" ++ s)
+
+/-! ### Limits are accounted per request
+
+The VM is one object for the whole process; under the HTTP server every in-flight request runs
+on it.  A counter kept in the VM is therefore the *sum* over all in-flight requests.  A limit
+whose refusal (an error, a different answer) is decided on such a sum makes a shallow request
+fail because *other* requests are deep.  The translator lists every place that enters a VM
+counter, the limit it is compared with and whether the refusal is conditioned on a count of the
+calling goroutine's own frames. -/
+
+/-- the process-wide counters the model knows (`Model.ReqLimit`: one call-depth counter) -/
+def knownCounters : List String := ["VM.callDepth"]
+
+/-- the guard fact of a Go function, if it enters a counter -/
+def Facts.guardOf (f : Facts) (fn : String) : Option DepthGuard := f.depthGuards.find? (fun d => d.fn == fn)
+
+/-- a guard is isolated: it never refuses, or its refusal is decided by the goroutine's own
+frames — frames that are all counted in the process-wide number, against a limit that is not
+below the process-wide one (so that `shared > limit ∧ own > ownLimit ↔ own > ownLimit`) -/
+def Facts.guardIsolated (f : Facts) (d : DepthGuard) : Bool :=
+  d.decidesOn == "never" ||
+  (d.decidesOn == "own" && decide (d.limit ≤ d.ownLimit) && d.ownCounts.all (fun j => (f.guardOf j).isSome))
+
+def Facts.guardsIsolated (f : Facts) : Bool := f.depthGuards.all f.guardIsolated
+
+/-- what the facts show against per-request accounting, by name -/
+def Facts.guardViolations (f : Facts) : List String :=
+  ((f.depthGuards.filter (fun d => d.decidesOn == "shared")).map
+      (fun d => "refusal-decided-on-process-wide-counter:" ++ d.fn ++ ":" ++ d.counter)) ++
+  ((f.depthGuards.filter (fun d => d.decidesOn != "shared" && !(f.guardIsolated d))).map
+      (fun d => "own-frame-count-does-not-bound-the-decision:" ++ d.fn)) ++
+  ((f.depthGuards.filter (fun d => !d.balanced)).map (fun d => "counter-not-left-on-every-path:" ++ d.fn)) ++
+  ((f.depthGuards.filter (fun d => !(knownCounters.contains d.counter))).map
+      (fun d => "unknown-counter:" ++ d.fn ++ ":" ++ d.counter)) ++
+  ((f.vmCounters.filter (fun c => !(knownCounters.contains c.name))).map (fun c => "vm-counter:" ++ c.name)) ++
+  ((f.vmCounters.filter (fun c => !c.atomic)).map (fun c => "vm-counter-not-atomic:" ++ c.name))
+
+/-- the limits the source enforces next to process-wide counters (the harness parks frames
+around and beyond every one of them) -/
+def Facts.limits (f : Facts) : List Nat :=
+  ((f.depthGuards.map (·.limit)) ++ (f.depthGuards.map (·.ownLimit))).filter (· > 0) |>.eraseDups
 
 /-- script code that can run before the caches are reset for its request, or on a context
 shared between requests -/
